@@ -383,7 +383,7 @@ class FlowGen:
         if loop_depth > 0:
             opts += [("break",), ("break",), ("continue",), ("continue",)]
         if in_fn:
-            opts += [("return", ("int", self.tag()))]
+            opts += [("return", ("int", self.tag())), ("return", None)]
         elif loop_depth > 0 and ch.bool(0.1):
             opts += [("return", ("int", self.tag()))]   # ends the script
         if not opts:
@@ -508,6 +508,11 @@ class FlowGen:
         names = list(vars_)
         value = ("list", [("var", n) for n in names]) if ch.bool() else \
             ("var", names[-1])
+        if ch.bool(0.5):
+            # an element expression with an observable effect: it must run
+            # for the accepted elements only, as in the explicit loop
+            value = call("chk", ("int", 900 + self.tag()), value)
+            self.features.add("comprehension-element-logs")
         r = self.fresh("r")
         r2 = self.fresh("r")
         self.features.add("comprehension-" + kind)
@@ -618,7 +623,7 @@ class ErrGen:
         if in_loop:
             opts += [("break",), ("continue",)]
         if in_fn:
-            opts += [("return", ("int", 100 + self.tag()))]
+            opts += [("return", ("int", 100 + self.tag())), ("return", None)]
         if not opts:
             return None
         e = self.ch.choice(opts)
